@@ -62,14 +62,14 @@ CHECKS = {
         "technique": "interprocedural taint/dependency dataflow over LLVM IR (N0 and -O3), byte-granular field-sensitive memory",
     },
     "C03": {
-        "text": "Four rule families over the six decrypt functions and check_tag: (GUARD) finite-class execution on clen: 0..7 return negative before any load/store/call; (MUST) for every class >= 8 "
+        "text": "Rule families over the three AEAD decrypt functions, check_tag and the helpers they share with SIV (the SIV decrypt functions are C08's, which re-runs these rules on them): (GUARD) finite-class execution on clen: 0..7 return negative before any load/store/call; (MUST) for every class >= 8 "
                 "every path returns exactly the value of the single check_tag call; (ARGS) size = 8, tag1 = the 8-byte local filled by generate_tag on every path, tag2 = c + clen - 8 proven by affine "
                 "cursor/length lock-step (SCEV recurrences + residue reasoning for the 1/2/3-byte tails); (CMP) in check_tag the compare loop's SCEV coverage is [0,size) for both tags, the accumulator "
                 "update equals accum | (tag1[i]^tag2[i]) at bit granularity, its range is [0,255] by a known-bits fixpoint, and the fold is evaluated exhaustively on all 256 values: 0 -> 0, rest -> -1. "
                 "(SENS) every ciphertext bit of a segment reaches the recovered plaintext bit and the authenticated state; (ABSORB) the shared absorb function leaves a state that is an injective "
                 "function of the bytes of every segment (rank of the GF(2)-linear map the bytes enter by; otherwise a concrete pair of inputs absorbed alike is the refutation) - the premise of "
                 "'modified associated data is rejected'; (KEY) the key words are an injective function of the key bytes in every decrypt function and every nonce bit enters the state in every "
-                "path class of the shared setup function - premises of 'a modified key or nonce is rejected'.",
+                "path class of the shared setup function - premises of 'a modified key or nonce is rejected'; (DUAL) decrypt recomputes exactly the tag encrypt computes - the relational rules of C01 and C08 re-run as a premise (a deviation in decrypt alone rejects genuine packets).",
         "note": "Decides that the verdict is 0 exactly when all 64 bits of the computed and received tag agree, for every path; that the computed tag depends on every input bit is a property of the "
                 "cipher (structure under C02), and the 2^-64 bound is not a code property. N0 (source-shaped) IR of clang 14 only.",
         "technique": "finite-class abstract execution + affine cursor/length analysis (SCEV) + bit-provenance and known-bits abstract interpretation",
